@@ -73,6 +73,7 @@ class NegLab:
         self.ae.dimse_timeout = 5
         self.ae.network_timeout = 5
         self.ae.add_supported_context(AB["A"])
+        self.ae.maximum_associations = 1000      # association threads of refused / malformed requests linger for acse_timeout: never the limit
         self.acc_views = []          # acceptor-side associations seen (latest last)
         self.handler_calls = []
         self.identity = None         # per-case verdict for EVT_USER_ID: "true" "false" "raise" or None (unbound)
@@ -95,8 +96,11 @@ class NegLab:
 
     def _user_id(self, event):
         self.user_id_calls += 1
+        self.user_id_calls_total = getattr(self, "user_id_calls_total", 0) + 1
         if self.identity == "raise":
-            raise RuntimeError("identity check failed")
+            # (whatever its class - an exception is not a positive verdict)
+            kinds = (RuntimeError, TypeError, KeyError, ValueError, AttributeError)
+            raise kinds[self.user_id_calls_total % len(kinds)]("identity check failed")
         if self.identity == "falsy":
             return None, None
         return (self.identity == "true"), None
@@ -221,7 +225,7 @@ class NegLab:
         out = {"kind": "none", "pdu": None, "bytes": b"", "after": None}
         try:
             s.sendall(rq_bytes)
-            b = recv_pdu(s, 1.0)
+            b = recv_pdu(s, 8.0)
             out["bytes"] = b or b""
             if b:
                 if b[0] == 2:
@@ -242,7 +246,7 @@ class NegLab:
                 # a C-ECHO request on context 1 regardless of the outcome
                 try:
                     s.sendall(pn.pdata_pdu(1, echo_command()).encode())
-                    out["after"] = recv_pdu(s, 0.5)
+                    out["after"] = recv_pdu(s, 2.0)
                 except OSError:
                     out["after"] = b""
             if out["kind"] == "AC":
